@@ -1115,6 +1115,28 @@ class Evaluator:
                             r_.ret = Res(None, True)
                     outs.extend(res)
             return outs
+        if isinstance(recv, Opt) and m == "filter":
+            # Some(x) stays only if the closure accepts x
+            if recv.none:
+                q = p.fork() if recv.some is not None else p
+                q.conds.append((f"{desc} matches None", True, line, None))
+                q.ret = Opt(None, True)
+                outs.append(q)
+            if recv.some is not None:
+                for r_ in self.apply_closure(clos, [recv.some], p) or []:
+                    c = r_.ret
+                    cd = getattr(c, "desc", None) or "filter closure"
+                    if not (isinstance(c, Bool) and c.v is False):
+                        k = r_.fork()
+                        k.conds.append((cd, True, line, None))
+                        k.ret = Opt(recv.some, False)
+                        outs.append(k)
+                    if not (isinstance(c, Bool) and c.v is True):
+                        k = r_.fork()
+                        k.conds.append((cd, False, line, None))
+                        k.ret = Opt(None, True)
+                        outs.append(k)
+            return outs
         if isinstance(recv, Opt) and m in ("map", "and_then", "or_else", "unwrap_or_else", "ok_or_else", "map_or_else"):
             if recv.some is not None:
                 q = p.fork() if recv.none else p
